@@ -163,6 +163,34 @@ pub fn exec(f: &[&str]) -> Option<String> {
         ["tof64", d] => match jsonb::to_f64(&unhex(d)?) { Ok(x) => format!("ok {:016x}", canon_bits(x)), Err(_) => "err".into() },
         // `to_str`, the cast (`tostr` is to_string); the float table is only used by the model
         ["caststr", d, _] => match jsonb::to_str(&unhex(d)?) { Ok(s) => format!("ok {}", hex(s.as_bytes())), Err(_) => "err".into() },
+        // C18: the i64 / u64 / f64 views of a number stored in a document, through every public cast, judged
+        // against the exact value (computed here with i128 / exact float tests, not with Number::cmp)
+        ["numcast", t] => {
+            let n = parse_num_tok(t)?;
+            let d = jsonb::Value::Number(n.clone()).to_vec();
+            let exact_i128: Option<i128> = match &n {
+                jsonb::Number::Int64(i) => Some(*i as i128),
+                jsonb::Number::UInt64(u) => Some(*u as i128),
+                jsonb::Number::Float64(f) => if f.is_finite() && f.fract() == 0.0 && f.abs() < 1.0e30 { Some(*f as i128) } else { None },
+            };
+            let chk_i = |name: &str, got: Option<i64>| -> Option<String> { match got { Some(x) if exact_i128 != Some(x as i128) => Some(format!("MISMATCH {} gives {} for {}", name, x, t)), _ => None } };
+            let chk_u = |name: &str, got: Option<u64>| -> Option<String> { match got { Some(x) if exact_i128 != Some(x as i128) => Some(format!("MISMATCH {} gives {} for {}", name, x, t)), _ => None } };
+            if let Some(m) = chk_i("as_i64", jsonb::as_i64(&d)) { return Some(m); }
+            if let Some(m) = chk_i("to_i64", jsonb::to_i64(&d).ok()) { return Some(m); }
+            if let Some(m) = chk_u("as_u64", jsonb::as_u64(&d)) { return Some(m); }
+            if let Some(m) = chk_u("to_u64", jsonb::to_u64(&d).ok()) { return Some(m); }
+            if let Some(m) = chk_i("Number::as_i64", n.as_i64()) { return Some(m); }
+            if let Some(m) = chk_u("Number::as_u64", n.as_u64()) { return Some(m); }
+            // an integer that fits must not be reported absent by the view of its own kind
+            if let jsonb::Number::Int64(i) = &n { if jsonb::as_i64(&d) != Some(*i) { return Some(format!("MISMATCH as_i64 absent or different for {}", t)); } }
+            if let jsonb::Number::UInt64(u) = &n { if jsonb::as_u64(&d) != Some(*u) { return Some(format!("MISMATCH as_u64 absent or different for {}", t)); } }
+            // f64 view: the nearest double (ties to even) of an integer, the float itself otherwise
+            let want_f: f64 = match &n { jsonb::Number::Int64(i) => *i as f64, jsonb::Number::UInt64(u) => *u as f64, jsonb::Number::Float64(f) => *f };
+            for (name, got) in [("as_f64", jsonb::as_f64(&d)), ("to_f64", jsonb::to_f64(&d).ok()), ("Number::as_f64", n.as_f64())] {
+                match got { Some(g) if (g.is_nan() && want_f.is_nan()) || canon_bits(g) == canon_bits(want_f) || (g == 0.0 && want_f == 0.0 && !matches!(n, jsonb::Number::Float64(_))) => {}, _ => return Some(format!("MISMATCH {} is not the nearest double of {}", name, t)) }
+            }
+            "ok".into()
+        }
         // Rust's str::parse::<f64> (the contract `to_f64` relies on for strings)
         ["strf64", s] => match String::from_utf8(unhex(s)?).ok().and_then(|s| s.parse::<f64>().ok()) {
             Some(x) => format!("ok {:016x}", canon_bits(x)),
